@@ -248,28 +248,53 @@ def r4(ctx):
     # padding discipline
     se = ctx.fn("connection:HandshakeClientHelloMessage.serialize")
     de = ctx.fn("connection:HandshakeClientHelloMessage.deserialize")
-    tw = [n for n in walk_own(se.node) if isinstance(n, ast.Assign) and norm(n.targets[0]) == "to_write"]
-    tr = [n for n in walk_own(de.node) if isinstance(n, ast.Assign) and norm(n.targets[0]) == "to_read"]
-    if ctx.require("C11.R4", de, "padding length computation (to_read)", len(tr), 1) and ctx.require("C11.R4", se, "padding length computation (to_write)", len(tw), 1):
-        a, b = norm(tw[0].value).replace(" ", ""), norm(tr[0].value).replace(" ", "")
-        ctx.check(a == b and "Packet.MAX_PAYLOAD_SIZE" in a, "C11.R4", de, "reader expects exactly the padding the writer adds, derived from Packet.MAX_PAYLOAD_SIZE",
-                  "an accepted hello fills a whole datagram", witness={"to_write": a, "to_read": b})
-        # e - s measure the same span on both sides: s = tell() at entry, e = tell() after the two fields
-        for f in (se, de):
-            tells = [n for n in walk_own(f.node) if isinstance(n, ast.Assign) and norm(n.value) == "%s.tell()" % f.params[1]]
-            ctx.check([norm(t.targets[0]) for t in tells] == ["s", "e"], "C11.R4", f, "span (e - s) measured with stream.tell() around the two fields", witness=[norm(t) for t in tells])
-        rd = [n for n in walk_own(de.node) if isinstance(n, ast.Assign) and isinstance(n.value, ast.Call) and norm(n.value.func) == "%s.read" % de.params[1]]
-        ok = len(rd) == 1 and norm(rd[0].value.args[0]) == "to_read"
-        rv = norm(rd[0].targets[0]) if rd else "read"
-        chk = [n for n in walk_own(de.node) if isinstance(n, ast.If) and norm(n.test) in ("len(%s) != to_read" % rv, "to_read != len(%s)" % rv) and any(isinstance(s, ast.Raise) for s in n.body)]
-        ctx.check(ok and len(chk) == 1, "C11.R4", de, "short padding -> raise", "a hello shorter than a full datagram is refused before any reply", witness=[norm(c.test) for c in chk])
-        dcfg = cfg_of(de)
+    # by value: the writer pads with os.urandom(N), the reader reads N' bytes and raises unless it got N'; N and N' are read
+    # through the temporaries that hold them (the span is measured with stream.tell() before and after the two fields)
+    from .common import sym_expr, before
+    dcfg = cfg_of(de)
+
+    def value(f, e, at):
+        cfg_ = cfg_of(f)
+        return norm(sym_expr(f, e, cfg_.node_of(at), allow_calls=("%s.tell" % f.params[1],))).replace(" ", "")
+    wr = [c for c in calls_named(se, "write") if norm(c.func) == "%s.write" % se.params[1]]
+    ok_w = len(wr) == 1 and isinstance(wr[0].args[0], ast.Call) and value(se, wr[0].args[0].func, wr[0]) == "os.urandom" and len(wr[0].args[0].args) == 1
+    if ok_w:
+        n_w = value(se, wr[0].args[0].args[0], wr[0])
+    else:
+        # os.urandom(...) bound to a temporary first
+        n_w = None
+        if len(wr) == 1:
+            e = sym_expr(se, wr[0].args[0], cfg_of(se).node_of(wr[0]), allow_calls=("%s.tell" % se.params[1], "os.urandom"))
+            if isinstance(e, ast.Call) and norm(e.func) == "os.urandom" and len(e.args) == 1:
+                n_w = norm(e.args[0]).replace(" ", "")
+                ok_w = True
+    ctx.check(ok_w, "C11.R4", se, "the writer pads with os.urandom(<padding length>) bytes", witness=[norm(w) for w in wr])
+    rd = [c for c in calls_named(de, "read") if norm(c.func) == "%s.read" % de.params[1]]
+    if ctx.require("C11.R4", de, "padding read in HandshakeClientHelloMessage.deserialize", len(rd), 1) and ok_w:
+        n_r = value(de, rd[0].args[0], rd[0]) if rd[0].args else None
+        ctx.check(n_w == n_r and "Packet.MAX_PAYLOAD_SIZE" in (n_w or ""), "C11.R4", de, "reader expects exactly the padding the writer adds, derived from Packet.MAX_PAYLOAD_SIZE",
+                  "an accepted hello fills a whole datagram", witness={"to_write": n_w, "to_read": n_r})
+        # the span is measured around the two fields on both sides
+        for f, codec in ((se, "serialize_value"), (de, "deserialize_value")):
+            tells = [c for c in calls_named(f, "tell") if norm(c.func) == "%s.tell" % f.params[1]]
+            fields = calls_named(f, codec)
+            ok = len(tells) == 2 and len(fields) == 2 and all(before(f, tells[0], c) for c in fields) and all(before(f, c, tells[1]) for c in fields)
+            ctx.check(ok, "C11.R4", f, "span measured with stream.tell() before and after the two fields", witness=[norm(t._parent)[:60] for t in tells])
+        # short padding -> raise, and deserialize returns only past that test
+        rv = norm(rd[0]._parent.targets[0]) if isinstance(rd[0]._parent, ast.Assign) and isinstance(rd[0]._parent.targets[0], ast.Name) else None
+        chk = []
+        for n in walk_own(de.node):
+            if isinstance(n, ast.If) and isinstance(n.test, ast.Compare) and len(n.test.ops) == 1 and isinstance(n.test.ops[0], ast.NotEq) and any(isinstance(s_, ast.Raise) for s_ in n.body):
+                sides = [n.test.left, n.test.comparators[0]]
+                lens = [x for x in sides if norm(x) == "len(%s)" % rv]
+                other = [x for x in sides if norm(x) != "len(%s)" % rv]
+                if len(lens) == 1 and len(other) == 1 and value(de, other[0], n.test) == n_r:
+                    chk.append(n)
+        ctx.check(rv is not None and len(chk) == 1, "C11.R4", de, "short padding -> raise", "a hello shorter than a full datagram is refused before any reply", witness=[norm(c.test) for c in chk])
         if chk:
             rets = [n for n in dcfg.stmts((ast.Return,))]
             t = dcfg.node_of(chk[0].test)
             ctx.check(all(dcfg.edge_dominates(t.id, "F", r.id) for r in rets), "C11.R4", de, "deserialize returns only after the padding check passed")
-        wr = [c for c in calls_named(se, "write") if norm(c.func) == "%s.write" % se.params[1]]
-        ctx.check(len(wr) == 1 and norm(wr[0].args[0]) == "os.urandom(to_write)", "C11.R4", se, "the writer pads with to_write random bytes", witness=[norm(w) for w in wr])
     # (c) keep-alives only when CONNECTED
     bpi = ctx.fn("connection:ConnectionBase._build_packet_impl")
     bcfg = cfg_of(bpi)
